@@ -32,7 +32,7 @@ TReset == /\ IsEvent("Reset") /\ T[l].beh \in Int
 
 \* the helper's load: every configuration field is logged; a failed load has no projection
 TopoFieldsOK(e) ==
-  /\ e.flags \in Nat /\ e.all \in -1..3 /\ e.io \in -1..3 /\ e.rflags \in Nat /\ e.xmlf \in -1..7 /\ e.synf \in -1..15
+  /\ e.flags \in Nat /\ e.all \in -1..3 /\ e.io \in -1..3 /\ e.rflags \in Nat /\ e.xmlf \in -1..7 /\ e.synf \in -1..31
   /\ e.kind \in {"S", "X"} /\ e.ok \in {0, 1} /\ e.rret \in {0, -1}
   /\ e.ok = 1 => /\ e.stage = "" /\ e.errno = "0"
                  /\ Len(e.lnames) = e.topo.depth + 6 /\ Len(e.snames) = e.topo.depth + 6
@@ -82,7 +82,11 @@ TCalc ==
   /\ IsEvent("calc")
   /\ LET e == T[l]
          fb == e.mode.m \in {"fbL", "fbH"}
-         st == Run(cur.topo, St0, e.toks)
+         sin == e.mode.m = "stdin"
+         \* standard input mode: the options on the command line precede every location; a word with a blank inside
+         \* is not one word of the input line (then nothing is determined)
+         st0 == Run(cur.topo, St0, IF sin THEN StdinOrder(e.toks) ELSE e.toks)
+         st == IF sin THEN [st0 EXCEPT !.det = st0.det /\ StdinPlain(e.toks)] ELSE st0
          lst == IF last.toks = e.toks THEN last ELSE [NoLast EXCEPT !.toks = e.toks]
      IN /\ CalcCfg(cur)
         /\ EvOK(e)
@@ -91,6 +95,7 @@ TCalc ==
         /\ e.targs = InputArgv(cur)
         /\ fb => last.toks = e.toks                                   \* a feedback invocation follows its source
         /\ e.argv = CmdArgv(e.toks, e.mode, lst.out)
+        /\ e.stdin = (IF sin THEN StdinText(e.toks, e.mode) ELSE "")
         /\ CalcRel(cur.topo, [l |-> cur.lnames, s |-> cur.snames], st, e.mode, EvRec(e), lst)
         /\ last' = [toks |-> e.toks,
                     I |-> IF e.mode.m = "I" /\ e.rc = 0 /\ Len(e.lines) = 1
@@ -113,34 +118,25 @@ TDistrib ==
         /\ DistribRel(cur.topo, e.dm, EvRec(e))
   /\ UNCHANGED <<cur, slots, last>>
 
-\* lstopo: KEEP_ALL then KEEP_IMPORTANT for I/O, then the filters of its options; flags IMPORT_SUPPORT
-AllTypes(f) == BS!Join([ty \in 1..NTYPES |-> BS!Dec(ty - 1) \o ":" \o BS!Dec(f)], ",")
-LstopoTf(lm) == CASE lm.filt = "--merge" -> AllTypes(FILTER_KEEP_STRUCTURE)
-                  [] lm.filt = "--no-io" -> "16:1,17:1,18:1"
-                  [] lm.filt = "--whole-io" -> "16:0,17:0,18:0"
-                  [] lm.filt = "--no-caches" -> "5:1,6:1,7:1,8:1,9:1,10:1,11:1,12:1"
-                  [] OTHER -> ""
-LstopoCfg(te, lm) == /\ te.ok = 1 /\ te.flags = 8 /\ te.all = 0 /\ te.io = 3 /\ te.tf = LstopoTf(lm)
-                     /\ te.xmlf = (IF lm.of \in {"xml", "v2xml"} THEN lm.xflags + (IF lm.of = "v2xml" /\ lm.xflags % 4 < 2 THEN 2 ELSE 0) ELSE -1)
-                     /\ te.synf = (IF lm.of = "synthetic" THEN lm.sflags ELSE -1)
-LstopoArgv(lm) == (IF lm.filt = "" THEN <<>> ELSE <<lm.filt>>)
-                  \o (IF lm.xflags = 0 THEN <<>> ELSE <<"--export-xml-flags", BS!Dec(lm.xflags)>>)
-                  \o (IF lm.sflags = 0 THEN <<>> ELSE <<"--export-synthetic-flags", BS!Dec(lm.sflags)>>)
-                  \o lm.extra \o <<"--of", lm.of>>
+\* lstopo: KEEP_ALL then KEEP_IMPORTANT for I/O, then the filter of its option; flags IMPORT_SUPPORT (and what
+\* the option adds); the helper exported the same topology with the export flags the command line denotes (Calc!LsCfg)
+LstopoCfg(te, lm) == LET c == LsCfg(lm) IN
+                     /\ te.ok = 1 /\ te.flags = c.fl /\ te.all = 0 /\ te.io = 3 /\ te.tf = c.tf
+                     /\ te.xmlf = c.xmlf /\ te.synf = c.synf
 TLstopo ==
   /\ IsEvent("lstopo")
   /\ LET e == T[l]
          lib == slots.lib
          lm == e.lm
      IN /\ EvOK(e)
-        /\ lm.of \in {"xml", "v2xml", "synthetic", "bogus"} /\ lm.xflags \in 0..3 /\ lm.sflags \in 0..15
-        /\ lm.filt \in {"", "--merge", "--no-io", "--whole-io", "--no-caches"}
+        /\ LmOK(lm)
         /\ LstopoCfg(lib, lm)
         /\ e.targs = InputArgv(lib)
-        /\ e.argv = LstopoArgv(lm)
-        /\ IF lm.extra # <<>> THEN NoCrash(EvRec(e)) /\ e.rc # 0            \* malformed options
-           ELSE LstopoRel(lib, [of |-> IF lm.of = "v2xml" THEN "xml" ELSE lm.of],
-                          [lines |-> e.lines, rc |-> e.rc, sig |-> e.sig, san |-> e.san, text |-> e.text])
+        /\ e.argv = LstopoArgv(lm, e.outfile)
+        \* a destination file is named after the format, and did (filef) or did not (file) exist before
+        /\ lm.dest \in {"file", "filef"} => EndsWith(e.outfile, "." \o lm.of) /\ e.existed = (IF lm.dest = "filef" THEN 1 ELSE 0)
+        /\ Len(e.text) >= 0
+        /\ LstopoRel(lib, lm, [lines |-> e.lines, rc |-> e.rc, sig |-> e.sig, san |-> e.san, text |-> e.text])
   /\ UNCHANGED <<cur, slots, last>>
 
 \* hwloc-diff A B > D ; hwloc-patch A D P (and hwloc-patch -R B D Q): P is B again (and Q is A)
@@ -160,8 +156,9 @@ TPatch ==
   /\ IsEvent("patch")
   /\ LET e == T[l] IN
         /\ EvOK(e) /\ DiffCfg(slots.a) /\ DiffCfg(slots.b)
-        /\ e.reverse \in BOOLEAN /\ e.diffrc \in Int
-        /\ e.argv = (IF e.reverse THEN <<"-R", slots.b.src>> ELSE <<slots.a.src>>) \o <<e.diff, e.out>>
+        /\ e.reverse \in BOOLEAN /\ e.diffrc \in Int /\ e.stdin \in {0, 1} /\ e.dsize \in Int
+        \* hwloc-patch(1): the diff is a file, or "-" for the standard input (e.stdin = 1: the recorder fed it the file e.diff)
+        /\ e.argv = (IF e.reverse THEN <<"-R", slots.b.src>> ELSE <<slots.a.src>>) \o <<IF e.stdin = 1 THEN "-" ELSE e.diff, e.out>>
         /\ NoCrash(EvRec(e))
         /\ e.diffrc = 0 => e.rc = 0
   /\ UNCHANGED <<cur, slots, last>>
